@@ -189,7 +189,7 @@ func runC16(c *Ctx) {
 	if f := p.Method(pkgQRuntime, "Adapter", "runReconcile"); c.NeedFunc("R16.3", f, "qruntime.runReconcile") {
 		c.MustCut("R16.3", "return ⊣ {ctx done}", f, IsReturn, CutSpec{Edges: FactEdge("eq(select#0,const:0)")}, 1)
 
-		body := ClosureWith(f, p.CallTo("(*"+pkgQRuntime+".Adapter).runOnce"))
+		body := p.BodyWith(f, p.CallTo("(*"+pkgQRuntime+".Adapter).runOnce"))
 		if c.NeedFunc("R16.3", body, "runReconcile per-item closure") {
 			defers := Find(body, func(in ssa.Instruction) bool { _, ok := in.(*ssa.Defer); return ok })
 			okR := len(defers) >= 1 && defers[0].Block() == body.Blocks[0] && Glob("(*"+pkgQueue+".Item[*]).Release", p.CalleeName(defers[0].(ssa.CallInstruction)))
